@@ -39,7 +39,7 @@ e1('C04', 'client/server subscribe, unsubscribe, disconnect with sync/async call
 e1('C05', 'close (Disconnect / Node.Disconnect / transport close) placed at every point of subscribe, server-side subscribe, presence tick', 'Every close point within the bound; after settling the node must hold no hub, routing, presence or client-state entry of the closed connection and the connection/subscription gauges must be back to their earlier values.')
 e1('C06', 'presence ticks against subscribe/unsubscribe/close', 'Every interleaving within the bound; at quiescence the channel presence contains the connection iff it holds a subscription with presence, and presence stats count distinct clients/users.')
 e1('C07', 'subscribe completion against unsubscribe/disconnect, observed by a second subscriber', 'Every interleaving within the bound; the observer\'s join/leave pushes for the actor must alternate starting with join, end consistently with the final subscription state, and match the number of established/ended subscriptions.')
-e1('C08', 'connect, alive ticks, unsubscribe, server disconnect, transport close', 'Every interleaving within the bound; the callback log must show disconnect at most once and after connect, no alive after disconnect and one unsubscribe callback per established subscription that ended. Node shutdown and the HTTP handlers are not yet covered.')
+e1('C08', 'connect, alive ticks, unsubscribe, server disconnect, transport close', 'Every interleaving within the bound; the callback log must show disconnect at most once and after connect, no alive after disconnect and one unsubscribe callback per established subscription that ended. Node shutdown: a connect racing Shutdown (delay-bounded schedule exploration) and connection attempts after Shutdown through the generic API, the SSE handler and the HTTP-stream handler must never end up connected (WebSocket upgrade path not driven).')
 e1('C10', 'publications / joins of other connections against subscribe and unsubscribe (client and server side, positioned and not)', 'Every interleaving within the bound; on the connection\'s frame log no publication/join/leave for the channel may appear outside a subscription bracket. Per-channel batching variants are not yet covered.')
 claim('C02', 'E2', 'exhaustive enumeration of channel histories (publish/remove/TTL/meta-TTL over a virtual clock, depth-bounded) x subscribe probes on the real Node against a reference log',
       'Every history up to the stated depth is built on a real node under the virtual clock and probed with every (offset, epoch, limit, filter, reject flag) combination; recovered=true must mean the exact admitted suffix, recovered=false no publications.',
@@ -86,6 +86,22 @@ claim('C31', 'E2', 'exhaustive enumeration of upgrade header combinations, recei
 claim('C32', 'E2', 'exhaustive enumeration of JSON payload texts (length <= 4-6 over a structural alphabet incl. CR/LF) and binary payloads through the real SSE and HTTP-stream handlers against reference EventSource / NDJSON / varint parsers',
       'Every payload and batch in the domain is published to a connection served by the real ServeHTTP; the reference parser must see exactly one record per message decoding to the same message.',
       'Handlers run under the scheduler with a harness ResponseWriter; net/http itself is not in the loop.')
+
+claim('C13', 'E1+E2', 'exhaustive operation sequences and stateless DFS over producer / timer / delWriter / Close interleavings of the real per-channel batch writer with a recording flush function',
+      'Every event sequence up to depth 5-6 over six batch configurations, and every interleaving up to deviation bound 2-3 of two producers with an end event (timer-first deviations included); flushed items keep production order per channel, latest mode coalesces per key, nothing buffered is flushed after delWriter/Close(false) returned.',
+      'Component level (perChannelWriter without a Client); the client-level window is covered through the channelWriter closed flag only.')
+claim('C14', 'E2+E1', 'exhaustive enumeration of payload/tag sequences x subscribe/recover scripts on a real node with a fossil-delta client model (JSON and Protobuf, stream, cache, medium, map subscriptions), plus scheduler exploration of concurrent publishers',
+      'Every payload sequence up to length 3-4 over a payload alphabet with both patch-smaller and patch-larger cases, for fresh / recovering / paged connections on 7 stream channel kinds and 3 map channel kinds; every delivered delta must reconstruct the published payload and no delta may arrive without the right base.',
+      'Memory brokers; shared-poll keyed channels are covered by C25 only.')
+claim('C16', 'E2+E1', 'exhaustive enumeration of (server filter, client filter) pairs x publication tags x delivery paths on a real node, plus scheduler exploration of subscribe racing a publication',
+      'All 9 filter pairs x tag sequences up to length 3-5 on live positioned / non-positioned, stream recovery, cache recovery, map state page, map stream page, map live transition and streamless paths; a delivered publication must be admitted by both filters; a server-filter change on a map subscription must invalidate it.',
+      'No delta subscriptions (stated in the property).')
+claim('C40', 'E1', 'stateless DFS over worker / submitter / closer interleavings of the real dissolver (2 workers) with every failure pattern of 2-3 jobs',
+      'Every interleaving up to deviation bound 2-3; every submitted job runs until it succeeds, never after success, never when dequeued after Close began, late submits are rejected.',
+      'dissolve.New(2); the interpretation of "no job is executed after the queue is closed" is the one written in DESIGN.md (a job already dequeued cannot be recalled).')
+claim('C42', 'E2+E1', 'exhaustive get/put sequences (with reslicing / appending / replacing mutations before put) over length classes on the real pools, plus two-thread interleavings on the deterministic pool',
+      'Every sequence up to depth 3-6 per variant kind for ByteBuffer, ByteSlicesBuf and itemBuf; every buffer handed out is empty and has capacity >= the requested length.',
+      'sync.Pool is replaced by a deterministic LIFO (one of its permitted behaviours).')
 
 NA = {
  'C18': 'needs a Redis server (or faithful emulator) to execute the Redis broker; none exists in the sealed sandbox, so Redis-vs-Memory agreement cannot be explored',
